@@ -313,16 +313,44 @@ def symbolic_comprehension(it, e, fr, sc, kind):
     sub = Frame(fr.func, _ChainEnv({}, fr.env), fr.globs, fr.self_cls, fr.name)
     sub.path = getattr(fr, "path", None)
 
+    filt = {}
+
     def thunk():
         it.assign(g.target, view.elem(j), sub)
         conds = [it.eval(c, sub) for c in g.ifs]
         if conds:
-            raise OutOfSubset("filter in a comprehension over a symbolic iterable", e)
+            # a filter is supported for {k: f(k, v) for k, v in m.items() if cond(k, v)}: the key set is restricted
+            if kind != "dict" or not isinstance(sc.iterable, SMapView):
+                raise OutOfSubset("filter in a comprehension over a symbolic iterable", e)
+            fs = []
+            for c in conds:
+                t = ops.truth(it, c) if not isinstance(c, bool) else c
+                fs.append(t.e if isinstance(t, SV) else z3.BoolVal(bool(t)))
+            filt["cond"] = z3.And(*fs)
         if kind == "dict":
             return it.eval(e.key, sub), it.eval(e.value, sub)
         return it.eval(e.elt, sub)
 
     res, scope = cx.generic_eval([j], dom, thunk)
+    if kind == "dict" and "cond" in filt:
+        kk, vv = res
+        m = sc.iterable.m
+        kz = m.kc.unwrap(kk)
+        if not kz.eq(view.elem_z3(j)):
+            raise OutOfSubset("dict comprehension whose key is not the iterated element", e)
+        vc = _codec_for(it, vv, hint=getattr(sc.iterable, "_value_codec_hint", None) or (m.vc if vv is None else None))
+        vz = vc.unwrap(vv)
+        key = z3.Const(cx.fresh_name("ck"), m.kc.sort)
+        # element j of the ghost enumeration is (key, m[key]): express value and condition as functions of the key
+        subst = [(view.elem_z3(j), key)]
+        vz_k = z3.substitute(vz, *subst)
+        cond_k = z3.substitute(filt["cond"], *subst)
+        if mentions_const(vz_k, j) or mentions_const(cond_k, j):
+            raise OutOfSubset("filtered comprehension whose value or condition depends on the iteration position", e)
+        out = SMap(cx, m.kc, vc, "comp")
+        cx.assume(z3.ForAll([key], out.has(key) == z3.And(m.has(key), cond_k)))
+        cx.assume(z3.ForAll([key], z3.Implies(out.has(key), out.at(key) == vz_k)))
+        return out
     if kind == "dict":
         kk, vv = res
         if isinstance(sc.iterable, SMapView):
